@@ -387,6 +387,7 @@ func (pool *hostConnPool) Close() {
 		return
 	}
 	pool.closed = true
+	verifEvent("p_close", pool, "", len(pool.conns), nil)
 
 	// ensure we dont try to reacquire the lock in handleError
 	// TODO: improve this as the following can happen
@@ -430,6 +431,7 @@ func (pool *hostConnPool) fill() {
 
 	// switch from read to write lock
 	pool.mu.RUnlock()
+	verifEvent("p_fill_gate", pool, "", fillCount, nil)
 	pool.mu.Lock()
 
 	// double check everything since the lock was released
@@ -444,6 +446,7 @@ func (pool *hostConnPool) fill() {
 
 	// ok fill the pool
 	pool.filling = true
+	verifEvent("p_fill_begin", pool, "", startCount, nil)
 
 	// allow others to access the pool while filling
 	pool.mu.Unlock()
@@ -509,6 +512,7 @@ func (pool *hostConnPool) fillingStopped(err error) {
 
 	pool.mu.Lock()
 	pool.filling = false
+	verifEvent("p_fill_end", pool, "", len(pool.conns), err)
 	count := len(pool.conns)
 	host := pool.host
 	port := pool.port
@@ -594,15 +598,18 @@ func (pool *hostConnPool) connect() (err error) {
 	}
 
 	// add the Conn to the pool
+	verifEvent("p_connect_gate", pool, "", 0, nil)
 	pool.mu.Lock()
 	defer pool.mu.Unlock()
 
 	if pool.closed {
+		verifEvent("p_connect_late", pool, "", 0, nil)
 		conn.Close()
 		return nil
 	}
 
 	pool.conns = append(pool.conns, conn)
+	verifEvent("p_connect_add", pool, "", len(pool.conns), nil)
 
 	return nil
 }
@@ -633,6 +640,7 @@ func (pool *hostConnPool) HandleError(conn *Conn, err error, closed bool) {
 		if candidate == conn {
 			// remove the connection, not preserving order
 			pool.conns[i], pool.conns = pool.conns[len(pool.conns)-1], pool.conns[:len(pool.conns)-1]
+			verifEvent("p_handle_error", pool, "", len(pool.conns), nil)
 
 			// lost a connection, so fill the pool
 			go pool.fill()
